@@ -1,5 +1,6 @@
 import Driver.Proto
 import Verif.Spec.C09JsLex
+import Verif.Model.C09JsWriter
 /-! driver handlers for property C09, JavaScript slice (ops `spec.c09.js.*`, `model.c09.js.*`) -/
 namespace Verif.Driver.C09Js
 open Verif Verif.Driver Verif.Spec.C09JsLex
@@ -23,6 +24,24 @@ def lexH : Handler := fun args => do
     | .error (n, rest) => .error s!"not lexable after {n} tokens at: {String.ofList (rest.take 40)}"
     | .ok _ => .error "not lexable"
 
-def handlers : List (String × Handler) := [("spec.c09.js.lex", lexH)]
+def kindOfByte (b : UInt8) : Option Verif.Model.C09JsWriter.XKind :=
+  let c := Char.ofNat b.toNat
+  if c == 'n' then some (.tok .name) else if c == 'h' then some (.tok .priv) else if c == 'd' then some (.tok .num)
+  else if c == 's' then some (.tok .str) else if c == 't' then some (.tok .tmpl) else if c == 'r' then some (.tok .regex)
+  else if c == 'p' then some (.tok .punct) else if c == 'c' then some .comment else none
+
+/-- `model.c09.js.emit <list of tokens: kind byte followed by the text>` → the bytes the writer model produces -/
+def emitH : Handler := fun args => do
+  let items ← argList args 0
+  let toks ← items.mapM (fun (it : Bytes) =>
+    match it with
+    | k :: text =>
+      match kindOfByte k with
+      | some kd => .ok (⟨kd, bytesToChars text⟩ : Verif.Model.C09JsWriter.XTok)
+      | none => .error "bad token kind"
+    | [] => .error "empty token")
+  .ok (charsToBytes (Verif.Model.C09JsWriter.emitX toks))
+
+def handlers : List (String × Handler) := [("spec.c09.js.lex", lexH), ("model.c09.js.emit", emitH)]
 
 end Verif.Driver.C09Js
